@@ -40,7 +40,7 @@ type c11Route struct {
 
 // C11Op is one operation of the history.
 type C11Op struct {
-	Op      string     `json:"op"` // add, remove, route, rmroute, handle
+	Op      string     `json:"op"` // add, remove, route, rmroute, handle, add_other, remove_other (a second container that shares WebService values)
 	Svc     int        `json:"svc,omitempty"`
 	Root    string     `json:"root,omitempty"`
 	Routes  []c11Route `json:"routes,omitempty"` // add: initial routes; route: the new one (1)
@@ -70,6 +70,7 @@ func genC11(t *rapid.T) C11Case {
 	registered := map[int]bool{}    // svc index -> registered
 	created := map[int][]c11Route{} // svc index -> current routes (service exists once created)
 	rootOf := map[int]string{}
+	inOther := map[int]bool{}
 	handles := 0
 	nextRoute := 0
 	newRoute := func() c11Route {
@@ -96,7 +97,7 @@ func genC11(t *rapid.T) C11Case {
 			}
 		}
 		sort.Ints(idle)
-		kind := rapid.IntRange(0, 11).Draw(t, "opkind")
+		kind := rapid.IntRange(0, 13).Draw(t, "opkind")
 		nBefore := len(c.Ops)
 		switch {
 		case kind == 10 && len(idle) > 0:
@@ -109,6 +110,22 @@ func genC11(t *rapid.T) C11Case {
 			r := newRoute()
 			created[s] = append(created[s], r)
 			c.Ops = append(c.Ops, C11Op{Op: "route", Svc: s, Routes: []c11Route{r}})
+		case kind >= 12:
+			// the same WebService value is also mounted on (or taken off) a second container, which
+			// is nobody's business but that container's
+			var cands []int
+			for s := range created {
+				if inOther[s] == (kind == 13) {
+					cands = append(cands, s)
+				}
+			}
+			sort.Ints(cands)
+			if len(cands) == 0 {
+				continue
+			}
+			s := cands[rapid.IntRange(0, len(cands)-1).Draw(t, "othersvc")]
+			inOther[s] = kind == 12
+			c.Ops = append(c.Ops, C11Op{Op: map[bool]string{true: "add_other", false: "remove_other"}[kind == 12], Svc: s})
 		case kind >= 10:
 			continue
 		case (kind < 3 || len(regd) == 0) && len(unreg) > 0:
@@ -283,6 +300,8 @@ func checkC11History(c C11Case) (vs []*Violation) {
 	}
 
 	quietSteps := 0
+	var other *restful.Container
+	otherHas := map[int]bool{}
 	for step, op := range c.Ops {
 		where := fmt.Sprintf("after step %d (%s svc=%d root=%q pattern=%q)", step, op.Op, op.Svc, op.Root, op.Pattern)
 		switch op.Op {
@@ -357,6 +376,36 @@ func checkC11History(c C11Case) (vs []*Violation) {
 					handleBeforeRemove[o[1:]] = true
 				}
 			}
+		case "add_other", "remove_other":
+			s, ok := svcs[op.Svc]
+			if !ok {
+				continue
+			}
+			if other == nil {
+				other = restful.NewContainer()
+				if c.Router == model.JSR311 {
+					other.Router(restful.RouterJSR311{})
+				}
+			}
+			var opan interface{}
+			func() {
+				defer func() { opan = recover() }()
+				if op.Op == "add_other" {
+					if !otherHas[op.Svc] {
+						other.Add(s.ws)
+						otherHas[op.Svc] = true
+					}
+				} else if otherHas[op.Svc] {
+					other.Remove(s.ws)
+					otherHas[op.Svc] = false
+				}
+			}()
+			if opan != nil {
+				vs = append(vs, viol("", "%s: the operation on a second container panicked: %v", where, opan))
+				st.Case(c, nontrivial, append(labels, "ended_by_add_panic")...)
+				return vs
+			}
+			labels = append(labels, "service_shared_with_a_second_container")
 		case "route":
 			s, ok := svcs[op.Svc]
 			if !ok || len(op.Routes) != 1 {
